@@ -7,7 +7,7 @@
    width / length-form choice explicit, ser, decoder spec_dec), C10.CborConv (go_of: the Go
    value carrying given data; lib_supports: documented limits; tdepth; tree_of). *)
 From Coq Require Import List NArith ZArith Lia Bool.
-From Verif Require Import Base.Outcome Wire.Item Gen.Consts Wire.CborFloat Wire.Cbor C10.CborSpec C10.CborConv Wire.CborProofs Wire.CborDepth Wire.CborTotal.
+From Verif Require Import Base.Outcome Wire.Item Gen.Consts Wire.CborFloat Wire.Cbor C10.CborSpec C10.CborConv Wire.CborProofs Wire.CborDepth Wire.CborTotal Wire.CborDepthErr.
 Import ListNotations.
 Open Scope N_scope.
 
@@ -116,6 +116,23 @@ Theorem Wcbor_skip_progress : forall (D : dopts) (f : nat) (d : Z) (b rest : lis
 Proof. exact skip_progress_lemma. Qed.
 Print Assumptions Wcbor_skip_progress.
 
+(* dec_depth, first half (full): every well-formed serialisation of a supported item nested more than
+   MaxDepth allows (arrays, maps, kept tags, definite or indefinite, in any mixture; MaxDepth - 1 levels
+   are the most the decoder accepts) is rejected with the depth error - never Ok, never another error;
+   together with C10_cbor_in this decides every such input.  Same for values skipped inside an unknown
+   struct field (d = 1) or captured as Raw (d = 0). *)
+Theorem Wcbor_dec_depth_err : forall (D : dopts) (t : wtree) (rest : list N),
+  twf t -> lib_supports D t -> (maxdepth D <= tdepth D t)%Z ->
+  dec_naked D (fuel_for (ser t ++ rest)) (ser t ++ rest) = Err EDepth.
+Proof. exact dec_depth_err_lemma. Qed.
+Print Assumptions Wcbor_dec_depth_err.
+
+Theorem Wcbor_skip_depth_err : forall (D : dopts) (t : wtree) (d : Z) (rest : list N),
+  twf t -> skippable t -> (0 <= d < maxdepth D)%Z -> (maxdepth D <= d + sdepth t)%Z ->
+  skip D (fuel_for (ser t ++ rest)) d (ser t ++ rest) = Err EDepth.
+Proof. exact skip_depth_err_lemma. Qed.
+Print Assumptions Wcbor_skip_depth_err.
+
 (* all 65536 half-precision floats: the code's halfFloatToFloatBits (hand-modelled, tied by the
    leaf stream on all 65536 inputs) equals the RFC 8949 Appendix D value; exhaustive (two nested
    256-ranges, vm_compute) *)
@@ -185,3 +202,16 @@ Example Wcbor_depth_instances :
   dec_naked (mkdo false false false 0) 100 [155; 255; 255; 255; 255; 128; 0; 0; 0; 1] = Err EOverflow /\
   skip (mkdo false false false 0) 100 0 [91; 255; 255; 255; 255; 255; 255; 255; 247; 1] = Err EEof.
 Proof. vm_compute. repeat split. Qed.
+
+Example Wcbor_depth_err_nonvacuous :
+  let D := mkdo false false false 3 in
+  let t := TArr W0 [TMapI [(TUint W0 1, TTag W1 100 (TArrI [THalf 0]))]] in
+  twf t /\ lib_supports D t /\ (maxdepth D <= tdepth D t)%Z /\ skippable t /\ (maxdepth D <= 0 + sdepth t)%Z.
+Proof.
+  cbv zeta. split; [| split; [| split; [| split]]].
+  - cbn. repeat (apply conj || apply Forall_cons || apply Forall_nil || lia || exact I || (cbn; lia)).
+  - cbn. repeat (apply conj || apply Forall_cons || apply Forall_nil || lia || exact I || discriminate || reflexivity).
+  - vm_compute. discriminate.
+  - cbn. repeat (apply conj || lia || exact I).
+  - vm_compute. discriminate.
+Qed.
